@@ -214,7 +214,7 @@ func tcOf(env *core.Env) sut.Toolchain {
 // confirm re-decides a violating case through the real CLI only; a violation is
 // reported only if it reproduces there.
 func confirm(p *core.Prop, c any, r core.Result) core.Result {
-	if env.NoServer || os.Getenv("VERIF_NOSERVER") == "1" {
+	if p.NoConfirm || env.NoServer || os.Getenv("VERIF_NOSERVER") == "1" {
 		return r
 	}
 	env.NoServer = true
